@@ -377,4 +377,112 @@ def thdTime (rnd : α → Int) (w0 x : List α) (nharm : Nat) (aliased : Bool) :
   let p := periodogram w0 x
   thdPsd rnd p.length (ofList p) nharm aliased
 
+
+/-! ## a concrete engine: `std::mt19937` and the libstdc++ (GCC 12) distributions, at `Float`
+
+This instance of `Std` is what the correspondence run executes against `rand`/`randn`/`randi`/`awgn` after `rng(seed)`.
+The theorems of C19 do not depend on it (they hold for every `Std`). -/
+
+/-- state of `std::mersenne_twister_engine<…, 32, 624, 397, 31, 0x9908b0df, 11, 0xffffffff, 7, 0x9d2c5680, 15, 0xefc60000, 18, 1812433253>` -/
+structure MT where
+  mt : Array UInt32
+  idx : Nat
+
+namespace MT
+
+/-- `seed(value)` -/
+def seed (s : UInt32) : MT := Id.run do
+  let mut a : Array UInt32 := Array.mkEmpty 624
+  let mut prev := s
+  a := a.push prev
+  for i in [1:624] do
+    prev := (1812433253 : UInt32) * (prev ^^^ (prev >>> 30)) + i.toUInt32
+    a := a.push prev
+  return ⟨a, 624⟩
+
+/-- `_M_gen_rand()` (sequential in-place update) -/
+def twist (a : Array UInt32) : Array UInt32 := Id.run do
+  let mut a := a
+  for i in [0:624] do
+    let y := (a[i]! &&& 0x80000000) ||| (a[(i + 1) % 624]! &&& 0x7fffffff)
+    let v := a[(i + 397) % 624]! ^^^ (y >>> 1) ^^^ (if y &&& 1 == 1 then 0x9908b0df else 0)
+    a := a.set! i v
+  return a
+
+/-- `operator()` with tempering -/
+def next (m : MT) : UInt32 × MT :=
+  let m : MT := if m.idx ≥ 624 then ⟨twist m.mt, 0⟩ else m
+  let y := m.mt[m.idx]!
+  let y := y ^^^ (y >>> 11)
+  let y := y ^^^ ((y <<< 7) &&& 0x9d2c5680)
+  let y := y ^^^ ((y <<< 15) &&& 0xefc60000)
+  let y := y ^^^ (y >>> 18)
+  (y, ⟨m.mt, m.idx + 1⟩)
+
+/-- `std::generate_canonical<double, 53>(urng)`: two 32-bit draws, `(x0 + x1·2^32) / 2^64` -/
+def canon (m : MT) : Float × MT :=
+  let (x0, m) := m.next
+  let (x1, m) := m.next
+  let sum := (0.0 + Float.ofNat x0.toNat * 1.0) + Float.ofNat x1.toNat * 4294967296.0
+  let r := sum / 18446744073709551616.0
+  (if r ≥ 1.0 then Float.ofBits 0x3fefffffffffffff else r, m)
+
+/-- the rejection loop of `normal_distribution::operator()` (fuel: each round is accepted with probability π/4) -/
+def polar : Nat → MT → Float × Float × Float × MT
+  | 0, m => (0.0, 0.0, 1.0, m)
+  | f + 1, m =>
+    let (u1, m) := canon m
+    let x := 2.0 * u1 - 1.0
+    let (u2, m) := canon m
+    let y := 2.0 * u2 - 1.0
+    let r2 := x * x + y * y
+    if r2 > 1.0 || r2 == 0.0 then polar f m else (x, y, r2, m)
+
+/-- `normal_distribution<double>{0,1}::operator()`; the object state is the cached second value -/
+def normal (d : Option Float) (m : MT) : Float × Option Float × MT :=
+  match d with
+  | some v => (v * 1.0 + 0.0, none, m)
+  | none =>
+    let (x, y, r2, m) := polar 1000 m
+    let mult := Float.sqrt (-2.0 * Float.log r2 / r2)
+    ((y * mult) * 1.0 + 0.0, some (x * mult), m)
+
+/-- Lemire's method `uniform_int_distribution::_S_nd<uint64_t>(urng, range)` for a 32-bit generator -/
+def lemireLoop (range thr : UInt64) : Nat → UInt64 → MT → UInt64 × MT
+  | 0, prod, m => (prod, m)
+  | f + 1, prod, m =>
+    if (prod &&& 0xffffffff) < thr then
+      let (g, m) := m.next
+      lemireLoop range thr f (g.toUInt64 * range) m
+    else (prod, m)
+
+/-- `uniform_int_distribution<int>(lo, hi)::operator()` (GCC 12, 32-bit generator, 64-bit `unsigned long`) -/
+def uniformInt (lo hi : Int) (m : MT) : Int × MT :=
+  let urange : Nat := (hi - lo).toNat
+  if urange < 4294967295 then
+    let range : UInt64 := (urange + 1).toUInt64
+    let (g, m) := m.next
+    let prod := g.toUInt64 * range
+    let low := prod &&& 0xffffffff
+    let (prod, m) :=
+      if low < range then
+        -- `_Up __threshold = -__range % __range` in 32-bit unsigned arithmetic
+        let thr : UInt64 := ((4294967296 - (urange + 1)) % (urange + 1)).toUInt64
+        lemireLoop range thr 10000 prod m
+      else (prod, m)
+    (lo + ((prod >>> 32).toNat : Int), m)
+  else
+    let (g, m) := m.next
+    (lo + (g.toNat : Int), m)
+
+end MT
+
+/-- `thread_local std::mt19937 g_engine` with the libstdc++ distributions -/
+def stdMT : Std MT (Option Float) Float where
+  seedE s := MT.seed ((s % 4294967296).toNat).toUInt32
+  unif a b e := let (u, e1) := MT.canon e; (u * (b - a) + a, e1)
+  unifInt lo hi e := MT.uniformInt lo hi e
+  nInit := none
+  nDraw := MT.normal
+
 end Dsp.Noise
